@@ -91,7 +91,8 @@ CLAIMED = {
         "open_sound); the two points where the reference decoder is stricter than the reader (checksum field of an EMPTY dictionary entry all "
         "zeros; declared length 0 implies no stored bytes) and digest sizes as the format gives them. With C13's openFile_parse the whole "
         "path is one statement from the bytes of the file: open_read_decodes (Props/C02Full.lean): model open + reads + close succeed => "
-        "Format.decodeAny f = the bytes handed out. unzck's glue is corresponded, not proved.",
+        "Format.decodeAny f = the bytes handed out; open_read_decodes_sha (Props/C02Hash.lean) instantiates it with the SHA models of C18, whose digest sizes are "
+        "proved (zckHash_len), so no hypothesis about hashing remains. unzck's glue is corresponded, not proved.",
    technique="Lean 4 proof (loop invariant of the reader as a step machine, induction over iterations / calls / call sequences, refinement to the independent reference decoder) + differential correspondence against that decoder"),
  'C14': dict(
    text="Proof (Lean 4) on the model of zck_get_chunk_data / zck_get_chunk_comp_data: (1) history independence — once the dictionary is "
